@@ -35,6 +35,7 @@ FKINDS = ["zero", "root", "const_tiny", "tiny_lin", "linear", "quadratic", "time
 STRUCTS = ["flat", "dict", "tuple", "nested"]
 RTOL = 1e-12          # relative tolerance of the float-vs-exact comparisons
 ATOL_SQ = 1e-290      # absolute slack for squared norms (underflow of squares in float64)
+ATOL_SM = 1e-300      # absolute slack for vector components (denormals)
 
 
 # ------------------------------------------------------------------- generation
@@ -141,6 +142,37 @@ def gen_case(rng, helper, ukind=None, fkind=None):
     return c
 
 
+def fixed_cases():
+    """Deterministic representatives (independent of the seed) of every input class for which the
+    unchanged tree is known to violate the property, plus the example of Proofs/StepsizeProofs.v."""
+    def lin(helper, y0, a, b=0.0, **kw):
+        n = len(y0)
+        c = {"helper": helper, "n": n, "struct": "flat", "ukind": kw.pop("ukind"), "fkind": kw.pop("fkind"), "y0": y0,
+             "tc": 0.0, "t0": 0.0, "b": [b] * n, "A": [[a if i == j else 0.0 for j in range(n)] for i in range(n)],
+             "c": [0.0] * n, "g": [0.0] * n, "m": [0.0] * n}
+        if helper == "dt0":
+            c["scale"], c["nugget"] = None, None
+        else:
+            c["atol"], c["rtol"], c["rate"] = kw.get("atol", 1e-6), kw.get("rtol", 1e-3), kw.get("rate", 4)
+        return c
+    out = [
+        lin("dt0", [0.0, 0.0], -1.0, 1.0, ukind="zero", fkind="linear"),
+        lin("dt0", [1e-300], 0.0, 1.0, ukind="tiny300", fkind="linear"),
+        lin("dt0", [1e300, 1e300], 0.0, 0.0, ukind="huge300", fkind="zero"),
+        lin("dt0", [1e300], 1.0, 0.0, ukind="huge300", fkind="linear"),
+        lin("dt0", [1.0, 2.0], 1e200, 0.0, ukind="ordinary", fkind="huge_coef"),
+        lin("dt0_adaptive", [1e300], 1.0, 0.0, ukind="huge300", fkind="linear"),
+        lin("dt0_adaptive", [1.0, 2.0], 1e148, 0.0, ukind="ordinary", fkind="huge_coef", atol=1e-12, rtol=1e-12),
+        lin("dt0_adaptive", [0.0, 0.0], -1.0, 1.0, ukind="zero", fkind="linear"),
+        lin("dt0_adaptive", [1e-300], 0.0, 0.0, ukind="tiny300", fkind="zero"),
+    ]
+    # Example dt0_adaptive_example: y' = (1/4) J y, y0 = (3,4), rate 2: exact answer 1/10
+    ex = lin("dt0_adaptive", [3.0, 4.0], 0.0, 0.0, ukind="ordinary", fkind="linear", atol=29 / 5600, rtol=493 / 67200, rate=2)
+    ex["A"] = [[0.0, -0.25], [0.25, 0.0]]
+    out.append(ex)
+    return out
+
+
 def gen_solve_case(rng, idx):
     n = rng.choice([1, 2, 3])
     struct = rng.choice(["flat", "dict", "tuple"]) if n > 1 else "flat"
@@ -210,14 +242,15 @@ def term_adaptive(c, o):
     root = o["dt1_b"] if finite(o["dt1_b"]) else 1.0
     return (f"c18_adaptive {lib.qlit(c['atol'])} {lib.qlit(c['rtol'])} {lib.coq_nat(c['rate'])} {lib.qlit(c['t0'])} "
             f"{lib.qlist(c['y0'])} {lib.qlist(o['f0'])} {lib.qlist(o['f1'])} "
-            f"{lib.qlit(o['d0'])} {lib.qlit(o['d1'])} {lib.qlit(o['n2'])} {lib.qlit(root)}")
+            f"{lib.qlit(o['d0'])} {lib.qlit(o['d1'])} {lib.qlit(o['n2'])} {lib.qlit(root)} "
+            f"{lib.qlist(o['y1'])} {lib.qlist(o['arg'])} {lib.qlit(Fr(RTOL))} {lib.qlit(Fr(ATOL_SQ))} {lib.qlit(Fr(ATOL_SM))}")
 
 
 def term_simple(c, o):
     scale = Fr(1, 100) if c["scale"] is None else c["scale"]
     nugget = Fr(1, 100000) if c["nugget"] is None else c["nugget"]
     return (f"c18_simple {lib.qlit(scale)} {lib.qlit(nugget)} {lib.qlit(c['t0'])} {lib.qlist(c['y0'])} "
-            f"{lib.qlist(o['f0'])} {lib.qlit(o['d0'])} {lib.qlit(o['d1'])}")
+            f"{lib.qlist(o['f0'])} {lib.qlit(o['d0'])} {lib.qlit(o['d1'])} {lib.qlit(Fr(RTOL))} {lib.qlit(Fr(ATOL_SQ))}")
 
 
 def relclose(a: float, b: Fr, rtol=RTOL, atol=0.0):
@@ -232,35 +265,35 @@ def near(a: float, thr: float):
 
 def compare_adaptive(c, o, q):
     """q = model output (list of Fractions). Returns (mismatch or None, tie: bool)."""
-    b1, h0, t1, d2, b2, x, h1, h, nsq_y0, nsq_f0, nsq_arg, n = q[:12]
-    n = int(n)
-    y1, arg = q[12:12 + n], q[12 + n:]
+    b1, h0, t1, d2, b2, x, h1, h, ok_y0, ok_f0, ok_arg, bad_y1, bad_arg = q
     if o["y0_seen"] != c["y0"]:
         return "first norm is not taken of ravel(y0)", False
     if o["f0_seen"] != o["f0"]:
         return "second norm is not taken of ravel(f(t0, y0))", False
     if o["vf0"][0] != c["y0"] or o["vf0"][1] != c["t0"]:
         return f"first vector-field evaluation at (t={o['vf0'][1]}, y={o['vf0'][0]}), expected (t0, y0)", False
-    for nm, d, s in (("d0", o["d0"], nsq_y0), ("d1", o["d1"], nsq_f0), ("|(f1-f0)/scale|", o["n2"], nsq_arg)):
-        if abs(Fr(d) ** 2 - s) > Fr(RTOL) * s + Fr(ATOL_SQ):
-            return f"{nm}^2: implementation {float(Fr(d) ** 2)!r} vs exact squared norm {float(s)!r}", False
+    for nm, d, okf in (("d0 = |y0|", o["d0"], ok_y0), ("d1 = |f0|", o["d1"], ok_f0)):
+        if okf != 1:
+            return f"{nm}: implementation's norm {d!r}, squared, is not the exact sum of squares (rel {RTOL})", False
     if bool(o["cond1"]) != (b1 == 1):
         if near(o["d0"], 1e-5) or near(o["d1"], 1e-5):
             return None, True
         return f"stage-1 branch: implementation {bool(o['cond1'])} vs model {b1 == 1} (d0={o['d0']!r}, d1={o['d1']!r})", False
     if not relclose(o["dt0"], h0):
         return f"first guess dt0: implementation {o['dt0']!r} vs model {float(h0)!r}", False
-    if len(o["y1"]) != n or len(o["arg"]) != len(arg):
-        return "dimension of the Euler step / scaled difference", False
     if not relclose(o["t1"], t1, atol=RTOL * max(1.0, abs(c["t0"]))):
         return f"time of the second evaluation: implementation {o['t1']!r} vs model t0+dt0 {float(t1)!r}", False
-    for i in range(n):
-        sl = Fr(RTOL) * (abs(Fr(c["y0"][i])) + abs(h0 * Fr(o["f0"][i]))) + Fr(1e-300)
-        if abs(Fr(o["y1"][i]) - y1[i]) > sl:
-            return f"Euler step component {i}: implementation {o['y1'][i]!r} vs model {float(y1[i])!r}", False
-    for i in range(len(arg)):
-        if not relclose(o["arg"][i], arg[i], atol=1e-300):
-            return f"(f1-f0)/scale component {i}: implementation {o['arg'][i]!r} vs model {float(arg[i])!r}", False
+    if bad_y1 != 0:
+        k = int(bad_y1) - 1
+        return (f"Euler step y1 = y0 + dt0*f0, component {k}: implementation evaluates the field at "
+                f"{o['y1'][k] if 0 <= k < len(o['y1']) else o['y1']!r}, model y0+dt0*f0 = "
+                f"{c['y0'][k] + float(h0) * o['f0'][k] if 0 <= k < len(o['y1']) else '?'}"), False
+    if bad_arg != 0:
+        k = int(bad_arg) - 1
+        return (f"(f1-f0)/scale component {k}: implementation {o['arg'][k] if 0 <= k < len(o['arg']) else o['arg']!r} "
+                f"differs from the exact value"), False
+    if ok_arg != 1:
+        return f"|(f1-f0)/scale|: implementation's norm {o['n2']!r}, squared, is not the exact sum of squares", False
     if not relclose(o["d2"], d2, atol=1e-300):
         return f"d2: implementation {o['d2']!r} vs model {float(d2)!r}", False
     if o["max_args"][0] != o["d1"]:
@@ -285,14 +318,14 @@ def compare_adaptive(c, o, q):
 
 
 def compare_simple(c, o, q, result):
-    dt0, nsq_u0, nsq_f0 = q
+    dt0, ok_u0, ok_f0 = q
     if o["y0_seen"] != c["y0"]:
         return "first norm is not taken of ravel(u0)"
     if o["f0_seen"] != o["f0"]:
         return "second norm is not taken of ravel(f(u0))"
-    for nm, d, s in (("|u0|", o["d0"], nsq_u0), ("|f0|", o["d1"], nsq_f0)):
-        if abs(Fr(d) ** 2 - s) > Fr(RTOL) * s + Fr(ATOL_SQ):
-            return f"{nm}^2: implementation {float(Fr(d) ** 2)!r} vs exact squared norm {float(s)!r}"
+    for nm, d, okf in (("|u0|", o["d0"], ok_u0), ("|f0|", o["d1"], ok_f0)):
+        if okf != 1:
+            return f"{nm}: implementation's norm {d!r}, squared, is not the exact sum of squares (rel {RTOL})"
     if not relclose(result, dt0, atol=1e-320):
         return f"dt0: implementation {result!r} vs model scale*|u0|/(|f0|+nugget) = {float(dt0)!r}"
     return None
@@ -374,7 +407,7 @@ def main():
     rng = ck.rng
     quick = ck.tier == "quick"
 
-    cases = []
+    cases = fixed_cases()
     # corner grid: every kind of initial value x (zero field, f(u0) = 0, generic field), both helpers
     for uk in UKINDS:
         for fk in ("zero", "root", "linear"):
